@@ -1,4 +1,6 @@
 import random
+from decimal import Decimal
+from math import ceil, floor
 from typing import Any, List, Sequence, TypeVar, cast
 
 from niltype import Nil, Nilable
@@ -24,8 +26,8 @@ class Random:
             return random.uniform(start, end)
 
         scale_factor = 10 ** precision
-        left_number = int(start * scale_factor)
-        right_number = int(end * scale_factor)
+        left_number = ceil(Decimal(repr(start)) * scale_factor)
+        right_number = floor(Decimal(repr(end)) * scale_factor)
 
         result = cast(float, self.random_int(left_number, right_number) / scale_factor)
         return round(result, precision)
